@@ -71,15 +71,76 @@ class Env(object):
     pass
 
 
-def env():
+ROUTES = ["lazy-read", "init", "init-reload", "init-twice", "init-then-reload", "lazy-then-init", "lazy-then-reload",
+          "sample-first", "private", "private-reload", "private-after-public"]
+
+
+def perform_route(route):
+    """Do the initialisation *route* as the very first periodictable action of
+    this process; return the table the comparison is to run on."""
+    import sys
+    if "periodictable" in sys.modules:
+        raise RuntimeError("route %r must be the first periodictable action of the process" % route)
+    import periodictable
+    table = periodictable.elements
+    if route == "lazy-read":
+        table.Co[59].neutron_activation
+        return table
+    if route == "sample-first":
+        from periodictable import activation
+        s = activation.Sample("Co30Fe70", 10)
+        s.calculate_activation(activation.ActivationEnvironment(fluence=1e5, Cd_ratio=70, fast_ratio=50), exposure=10)
+        return table
+    from periodictable import activation
+    if route == "init":
+        activation.init(table)
+    elif route == "init-reload":
+        activation.init(table, reload=True)
+    elif route == "init-twice":
+        activation.init(table)
+        activation.init(table)
+    elif route == "init-then-reload":
+        activation.init(table)
+        activation.init(table, reload=True)
+    elif route == "lazy-then-init":
+        table.Co[59].neutron_activation
+        activation.init(table)
+    elif route == "lazy-then-reload":
+        getattr(table.H[1], "neutron_activation", None)
+        activation.init(table, reload=True)
+    elif route in ("private", "private-reload", "private-after-public"):
+        from periodictable import core, mass, density
+        if route == "private-after-public":
+            table.Au[197].neutron_activation
+        T = core.PeriodicTable("c14-" + route)
+        mass.init(T)
+        density.init(T)     # a one-element formula takes its density from the element
+        activation.init(T, reload=(route == "private-reload"))
+        if route == "private-reload":
+            activation.init(T, reload=True)
+        return T
+    else:
+        raise ValueError(route)
+    return table
+
+
+def env(route=None):
+    """Per-process environment.  *route* (only for the first call in a process)
+    selects how the activation table gets initialised; default: lazily, by the
+    first attribute read of the checks themselves."""
     if _STATE:
+        if route is not None and _STATE["route"] != route:
+            raise RuntimeError("environment already built by route %r" % _STATE["route"])
         return _STATE["E"]
+    table = perform_route(route) if route is not None else None
     import periodictable
     from periodictable import activation, mass as pmass
     E = Env()
     E.pt = periodictable
     E.act = activation
-    E.table = periodictable.elements
+    E.table = table if table is not None else periodictable.elements
+    E.route = route or "lazy"
+    _STATE["route"] = route
     E.rows = ra.read_rows()
     E.byiso = {}
     for r in E.rows:
@@ -444,6 +505,7 @@ def task_table(ctx):
     if n != len(E.rows):
         ctx.violation("c14:table:rows", "table serves %d rows, activation.dat has %d" % (n, len(E.rows)), {"kind": "table"})
     ctx.extra["rows"] = len(E.rows)
+    check_multiplicity(ctx, E)
     for row in E.rows:
         iso = E.table[row["Z"]][row["A"]]
         ais = getattr(iso, "neutron_activation", None)
@@ -462,6 +524,79 @@ def task_table(ctx):
                               % (row["index"], row["isotope"], row["daughter"], f, have, row[f]), {"kind": "table"})
         if row["Thalf_hrs"] <= 0 or (row["reaction"] in ("b", "2n") and row["Thalf_parent"] <= 0):
             ctx.violation("c14:table:half-life", "row %d has no half-life" % row["index"], {"kind": "table"})
+
+
+def check_multiplicity(ctx, E):
+    """For every isotope of the table: the list of (daughter, reaction, fast, half-life)
+    of iso.neutron_activation equals the rows of activation.dat for that target, in
+    order, each exactly once; isotopes without rows serve nothing; 513 rows in all."""
+    case = {"kind": "route", "route": E.route}
+    total = 0
+    for el in E.table:
+        for a in el.isotopes:
+            ais = getattr(el[a], "neutron_activation", None)
+            rows = E.byiso.get((el.number, a), [])
+            have = [(x.daughter, x.reaction, x.fast, x.Thalf_hrs) for x in (ais or [])]
+            want = [(r["daughter"], r["reaction"], r["fast"], r["Thalf_hrs"]) for r in rows]
+            total += len(have)
+            if rows:
+                ctx.case(("multiplicity", E.route, el.number, a), nontrivial=True, cls=["multiplicity"])
+            if have != want:
+                dup = sorted(set(x for x in have if have.count(x) > want.count(x)))
+                ctx.violation("c14:table:multiplicity",
+                              "[route %s] %s[%d] serves %d reaction rows %r, activation.dat lists %d: %r%s"
+                              % (E.route, el.symbol, a, len(have), have[:4], len(want), want[:4],
+                                 ("; listed more often than in the file: %r" % dup[:3]) if dup else ""), case)
+            if ais and len(set(id(x) for x in ais)) != len(ais):
+                ctx.violation("c14:table:multiplicity", "[route %s] %s[%d] lists the same row object twice" % (E.route, el.symbol, a), case)
+    if total != len(E.rows):
+        ctx.violation("c14:table:multiplicity", "[route %s] the table serves %d rows in all, activation.dat has %d"
+                      % (E.route, total, len(E.rows)), case)
+
+
+ROUTE_ENVS = [
+    dict(fluence=1e8, Cd=70.0, fast=50.0, exposure=10.0, rests=[0.0, 1.0, 24.0, 360.0], mass=1.0, mass2=2.0, grow=1.0),
+    dict(fluence=3e13, Cd=0.0, fast=0.5, exposure=500.0, rests=[2.0, 0.0], mass=0.01, mass2=0.5, grow=0.3),
+]
+ROUTE_SAMPLES = [
+    [[["Co", 0, 0], "30"], [["Fe", 0, 0], "70"]],
+    [[["Eu", 0, 0], "1"]],
+    [[["Rh", 0, 0], "1"], [["Te", 0, 0], "2"]],
+    [[["Er", 0, 0], "1"], [["Tm", 0, 0], "1"]],
+    [[["Na", 0, 1], "1"], [["Cl", 0, -1], "1"]],
+    [[["Au", 0, 0], "1"], [["Au", 197, 0], "2"]],
+    [[["Ni", 58, 0], "1"], [["S", 33, 0], "1"], [["O", 0, 0], "4"]],
+]
+
+
+def check_route(ctx, route):
+    """The initialisation *route* is this process's first periodictable action;
+    then multiplicities, every row in two environments, and sample totals."""
+    E = env(route)
+    ctx.count("route:" + route)
+    check_multiplicity(ctx, E)
+    for envd in ROUTE_ENVS:
+        shared = {"environment": make_env(E, envd), "rests": list(envd["rests"])}
+        for key in E.keys:
+            for v in isotope_violations(ctx, key, envd, shared=shared):
+                v.case = dict(v.case or {}, route=route)
+                ctx.violation(v.bucket, "[route %s] %s" % (route, v.message), v.case)
+        for n, atoms in enumerate(ROUTE_SAMPLES):
+            for which in ("NIST", "IAEA"):
+                try:
+                    check_sample(ctx, [atoms, envd, which])
+                except Violation as v:
+                    ctx.violation(v.bucket, "[route %s] %s" % (route, v.message), dict(v.case or {}, route=route))
+                except Exception as e:  # noqa
+                    fr = lib_frame(e.__traceback__)
+                    if fr is None:
+                        raise
+                    ctx.violation("exc:%s:%s" % (type(e).__name__, fr), "[route %s] %s: %s" % (route, type(e).__name__, e),
+                                  {"kind": "route", "route": route})
+
+
+def task_route(ctx, route):
+    check_route(ctx, route)
 
 
 # ----------------------------------------------------------------------
@@ -621,6 +756,31 @@ def compare_sample(E, atoms, activity, expected, scale, formula, which):
             if abs(g - w) > 1e-12 * sc + FLOOR:
                 return ("c14:sample:weighted-sum", "Sample(%r) [%s]: %s is %r, mass-fraction x abundance x activity gives %r"
                         % (formula, which, name, g, w))
+    # sums: the total and the sum per produced nuclide, over EVERY entry the sample
+    # reports (an entry listed twice counts twice), against the reference sums
+    nrest = max([len(x) for x in expected.values()] + [0])
+    for i in range(nrest):
+        tot_got = sum(vals[i] for vals in activity.values() if len(vals) > i)
+        tot_exp = sum(vals[i] for vals in expected.values())
+        tot_scale = sum(vals[i] for vals in scale.values())
+        if abs(tot_got - tot_exp) > 1e-11 * tot_scale + FLOOR:
+            return ("c14:sample:total", "Sample(%r) [%s]: total activity at rest time #%d is %r, the reference total is %r"
+                    % (formula, which, i, tot_got, tot_exp))
+    by_name = {}
+    for ai, vals in activity.items():
+        if vals:
+            by_name[ai.daughter] = by_name.get(ai.daughter, 0.0) + vals[0]
+    ref_name = {}
+    ref_scale = {}
+    for (z, ia, pos), vals in expected.items():
+        rws = E.byiso[(z, ia)]
+        d = rws[pos]["daughter"] if pos < len(rws) else "(row %d beyond the %d rows of activation.dat)" % (pos, len(rws))
+        ref_name[d] = ref_name.get(d, 0.0) + vals[0]
+        ref_scale[d] = ref_scale.get(d, 0.0) + scale[(z, ia, pos)][0]
+    for d in sorted(set(by_name) | set(ref_name)):
+        if abs(by_name.get(d, 0.0) - ref_name.get(d, 0.0)) > 1e-11 * ref_scale.get(d, 0.0) + FLOOR:
+            return ("c14:sample:product-sum", "Sample(%r) [%s]: summed activity of %s is %r, the reference sum is %r"
+                    % (formula, which, d, by_name.get(d, 0.0), ref_name.get(d, 0.0)))
     return None
 
 
@@ -651,7 +811,7 @@ def check_sample(ctx, value):
     environment = make_env(E, envd)
     expected, scale, base_failed = expected_sample(E, atoms, envd, which, case, environment)
     try:
-        sample = E.act.Sample(formula, envd["mass"])
+        sample = E.act.Sample(E.pt.formula(formula, table=E.table), envd["mass"])
         sample.calculate_activation(environment, exposure=envd["exposure"], rest_times=list(envd["rests"]), abundance=abundance)
     except Exception as e:  # noqa
         sample_exception(ctx, E, e, base_failed, envd, classes, formula, case)
@@ -845,6 +1005,7 @@ def tasks(tier):
         out.append(("elements", task_elements, {}))
         out.append(("families", task_families, {}))
         out.append(("table", task_table, {}))
+        out += [("route-" + r, task_route, dict(route=r)) for r in ROUTES]
         return out
     out = []
     for rep in range(3):
@@ -857,11 +1018,17 @@ def tasks(tier):
     out.append(("elements", task_elements, {}))
     out.append(("families", task_families, {}))
     out.append(("table", task_table, {}))
+    out += [("route-" + r, task_route, dict(route=r)) for r in ROUTES]
     return out
 
 
 def replay(ctx, case):
     kind = case.get("kind")
+    if case.get("route") and not _STATE:
+        env(case["route"])          # replays run in a fresh process: take the same initialisation route
+    if kind == "route":
+        check_route(ctx, case["route"])
+        return
     if kind == "row":
         # record every violation of the row (a known-finding entry names one bucket)
         for v in isotope_violations(ctx, (case["Z"], case["A"]), case["env"], only_pos=case["pos"]):
